@@ -352,7 +352,21 @@ func runC19(p *Prog, r *Report, tier string) {
 							pre := ap.Call.Args[0]
 							n := int64(-1)
 							fresh := false
+							appendForm := false
 							switch x := pre.(type) {
+							case *ssa.Call:
+								// binary.BigEndian.AppendUint32(make([]byte, 0, cap), uint32(len(bytes))): a fresh 4-byte big-endian prefix
+								if calleeName(&x.Call) == "(encoding/binary.bigEndian).AppendUint32" && len(x.Call.Args) == 3 {
+									if ms, ok := x.Call.Args[1].(*ssa.MakeSlice); ok && ms.Parent() == snd {
+										if l0, ok := constInt(ms.Len); ok && l0 == 0 {
+											if cv, ok := x.Call.Args[2].(*ssa.Convert); ok {
+												if s, isL := lenOfValue(cv.X); isL && s == mbytes {
+													n, fresh, appendForm = 4, true, true
+												}
+											}
+										}
+									}
+								}
 							case *ssa.MakeSlice:
 								n, _ = constInt(x.Len)
 								fresh = x.Parent() == snd
@@ -371,7 +385,7 @@ func runC19(p *Prog, r *Report, tier string) {
 								continue
 							}
 							// PutUint32(prefix, uint32(len(bytes))) big endian
-							okPut := false
+							okPut := appendForm
 							for _, ps := range putSites(snd) {
 								if ps.Width == 4 && ps.Order == "BigEndian" && ps.In.Call.Args[1] == pre {
 									if cv, ok := ps.Val.(*ssa.Convert); ok {
